@@ -557,6 +557,9 @@ def c05(run, replay):
     scen.append({"sc": "c17.keepalive", "args": {"pingms": 10, "timeoutms": 100, "blackhole": "steady", "longx": 1.5, "idlex": 1}})
     trace, viol = run_ws_scenarios(run, wd, scen, "c05", hooks=True, timeout=3000)
     report_ws(run, trace, viol, "C05", scen, "outage")
+    for v in viol:   # not re-establishing the link after a silent stall is a C05 failure as much as a C17 one
+        if v[1] == "C17" and v[2] in ("no-redial-after-silent-peer", "pending-call-not-failed-after-silent-peer"):
+            run.violation("outage: %s" % v[2], v[2], {"property": "C05", "scenario": scen[v[0] - 1], "clause": v[2], "call": v[3]})
     run.cov["distinct_nontrivial"] = len(set(json.dumps(s, sort_keys=True) for s in scen))
     run.cov["rule"] = "outage scenarios as listed in assumptions; distinct = distinct descriptions"
     for s in scen[:3]:
